@@ -78,6 +78,7 @@ type scheduler struct {
 	noSpawn     bool // `go` statements are recorded but not run
 	steps       int
 	timerFires    int
+	racy          bool // every heap load/store is a scheduling point (verif.ExploreMemory)
 	maxTimerFires int
 }
 
